@@ -108,6 +108,10 @@ type Config struct {
 	Groups     []int   `json:"groups,omitempty"`    // registration calls: consecutive runs of Handlers, each run registered with one AddGeneric and one AddListener call (ids mixed)
 	QueueCap   int     `json:"queue_cap,omitempty"` // capacity of the channel queues (free-running pass), default 64
 	Rounds     []Round `json:"rounds,omitempty"`    // history family: successive sessions on ONE bot.Client and ONE server.Server
+	// JoinDeadline: the bot joins with JoinOptions.Context carrying a deadline; once the join has returned, the
+	// connection's logical time is moved past every deadline still armed on it (vnet: time passes only when the
+	// harness says so), then the play traffic runs: a deadline meant for the join must not outlive the join.
+	JoinDeadline bool `json:"join_deadline,omitempty"`
 }
 
 // Round is one step of a history: a status ping or a join by the same bot.Client value.
@@ -486,7 +490,15 @@ func joinAndPlay(client *bot.Client, cfg Config, a *vnet.Conn, obs *Obs, hS sche
 		opts.QueueRead = queue.NewChannelQueue[pk.Packet](n)
 		opts.QueueWrite = queue.NewChannelQueue[pk.Packet](n)
 	}
+	if cfg.JoinDeadline {
+		ctx, cancel := context.WithDeadline(context.Background(), time.Now().Add(24*time.Hour))
+		defer cancel()
+		opts.Context = ctx
+	}
 	err := client.JoinServerWithOptions("localhost:25565", opts)
+	if cfg.JoinDeadline && err == nil {
+		a.LetDeadlinesPass()
+	}
 	obs.JoinErr = err
 	obs.ClientName, obs.ClientUUID = client.Name, client.UUID
 	if err != nil {
@@ -778,6 +790,12 @@ func genConfig(c *engine.Chooser, family string) Config {
 		cfg.S2C = seq(2, idX, 10)
 		cfg.C2S = seq(2, 9, 21)
 		cfg.Handlers = []HSpec{{true, 0, 0}}
+	case "deadline":
+		cfg.Threshold = []int{-1, 64}[pick(2)]
+		cfg.JoinDeadline = true
+		cfg.S2C = []Pkt{{idX, 3, 1}, {idX, 100, 2}}
+		cfg.C2S = []Pkt{{9, 3, 3}, {9, 100, 4}}
+		cfg.Handlers = []HSpec{{true, 0, 0}}
 	case "dispatch", "dispatch-sched":
 		specs := []HSpec{}
 		for _, g := range []struct {
@@ -954,6 +972,7 @@ var families = []struct {
 }{
 	{"login", 1, 2},
 	{"traffic", 0, 1},
+	{"deadline", 1, 2},
 	{"dispatch", 0, 1},
 	{"traffic-sched", 1, 2},
 	{"dispatch-sched", 1, 2},
